@@ -121,6 +121,55 @@ func (in *Interp) stringsIntrinsic(name string, args []Value) (Value, bool) {
 		return in.split(str(0), cst(1), n, name), true
 	case "strings.Contains":
 		return Bool(in.contains(str(0), cst(1), name)), true
+	case "internal/bytealg.IndexByteString", "strings.IndexByte":
+		s := str(0)
+		c := args[1].(*Term)
+		n := in.strLenConst(s, name)
+		for i := 0; i < n; i++ {
+			if in.branch(Eq(s.at(i), c)) {
+				return IntC(int64(i)), true
+			}
+		}
+		return IntC(-1), true
+	case "internal/bytealg.LastIndexByteString", "strings.LastIndexByte":
+		s := str(0)
+		c := args[1].(*Term)
+		n := in.strLenConst(s, name)
+		for i := n - 1; i >= 0; i-- {
+			if in.branch(Eq(s.at(i), c)) {
+				return IntC(int64(i)), true
+			}
+		}
+		return IntC(-1), true
+	case "strings.LastIndex":
+		s, p := str(0), cst(1)
+		n := in.strLenConst(s, name)
+		for i := n - len(p); i >= 0; i-- {
+			if in.matchAt(s, i, p) {
+				return IntC(int64(i)), true
+			}
+		}
+		return IntC(-1), true
+	case "internal/bytealg.CountString":
+		s := str(0)
+		c := args[1].(*Term)
+		n := in.strLenConst(s, name)
+		cnt := 0
+		for i := 0; i < n; i++ {
+			if in.branch(Eq(s.at(i), c)) {
+				cnt++
+			}
+		}
+		return IntC(int64(cnt)), true
+	case "strings.Index":
+		s, p := str(0), cst(1)
+		n := in.strLenConst(s, name)
+		for i := 0; i+len(p) <= n; i++ {
+			if in.matchAt(s, i, p) {
+				return IntC(int64(i)), true
+			}
+		}
+		return IntC(-1), true
 	case "strings.HasPrefix":
 		s, p := str(0), cst(1)
 		n := in.strLenConst(s, name)
